@@ -85,10 +85,26 @@ def _gen_value(rng, r, c, depth=0):
         return spec
     if kind in ("dense2d", "dense1d", "scalar"):
         spec["v"] = _vals(rng, r, c)
+        # element types and memory layouts a caller may legally hand over (the container stores doubles)
+        if rng.random() < 0.35:
+            # (a nested Python list cannot express an empty (0, c) block)
+            spec["dt"] = str(rng.choice(["i8", "i4", "f4", "b", "py"] if r * c > 0 else ["i8", "i4", "f4", "b"]))
+            if spec["dt"] in ("i8", "i4", "py") and rng.random() < 0.8:
+                spec["v"] = [[float(int(x * 8) % 7 - 3) for x in row] for row in spec["v"]]
+            elif spec["dt"] == "b":
+                spec["v"] = [[float(x > 0) for x in row] for row in spec["v"]]
+            elif spec["dt"] in ("i8", "i4"):
+                spec["dt"] = "f4"
+        if kind == "dense2d" and rng.random() < 0.3:
+            spec["lay"] = str(rng.choice(["F", "strided", "T"]))
         return spec
     if kind in ("csr", "csc", "coo"):
         spec["v"] = _vals(rng, r, c)
         spec["mask"] = [[int(rng.random() < 0.6) for _ in range(c)] for _ in range(r)]
+        if rng.random() < 0.2:
+            spec["dt"] = str(rng.choice(["i8", "f4"]))
+            if spec["dt"] == "i8":
+                spec["v"] = [[float(int(x * 8) % 7 - 3) for x in row] for row in spec["v"]]
         return spec
     if kind == "coodup":
         nnz = int(rng.integers(0, 7)) if r * c > 0 else 0
@@ -228,22 +244,48 @@ def _build_value(spec, r, c):
     if k == "none":
         return None, None
     r, c = spec["sh"]
+    NP = {"i8": np.int64, "i4": np.int32, "f4": np.float32, "b": np.bool_}
+    dt = spec.get("dt")
+
+    def typed(a):
+        """the same numbers in the element type / container the spec asks for"""
+        if dt is None:
+            return a
+        if dt == "py":
+            return [[int(x) if float(x).is_integer() else float(x) for x in row] for row in a.tolist()] if a.ndim == 2 else [int(x) if float(x).is_integer() else float(x) for x in a.tolist()]
+        return a.astype(NP[dt])
+
     if k == "dense2d":
         a = np.array(spec["v"], dtype=float).reshape(r, c)
-        return a, a
+        h = typed(a)
+        lay = spec.get("lay")
+        if isinstance(h, np.ndarray) and lay == "F":
+            h = np.asfortranarray(h)
+        elif isinstance(h, np.ndarray) and lay == "strided":
+            big = np.zeros((2 * r, 2 * c), dtype=h.dtype)
+            big[::2, ::2] = h
+            h = big[::2, ::2]
+        elif isinstance(h, np.ndarray) and lay == "T":
+            h = np.ascontiguousarray(h.T).T
+        return h, a
     if k == "dense1d":
         a = np.array(spec["v"], dtype=float).reshape(1, -1)
-        return a[0].copy(), a
+        return typed(a[0].copy()), a
     if k == "scalar":
         x = float(spec["v"][0][0])
-        return x, np.array([[x]])
+        hx = x
+        if dt == "py":
+            hx = int(x) if x.is_integer() else x
+        elif dt is not None:
+            hx = NP[dt](x)
+        return hx, np.array([[x]])
     if k in ("csr", "csc", "coo"):
         rr, cc = r, c
         a = np.array(spec["v"], dtype=float).reshape(rr, cc)
         mk = np.array(spec["mask"], dtype=float).reshape(rr, cc)
         d = a * mk
         cls = {"csr": csr_array, "csc": csc_array, "coo": coo_array}[k]
-        return cls(d), d
+        return cls(d if dt is None else d.astype(NP[dt])), d
     if k == "coodup":
         d = np.zeros((r, c))
         ii = [e[0] for e in spec["ijv"]]
@@ -329,7 +371,7 @@ def execute(plan, out, log):
                 )
                 log.ev("write_raised", k, type(e).__name__)
                 break
-            triples.add((op["rows"]["k"], op["cols"]["k"], vk))
+            triples.add((op["rows"]["k"], op["cols"]["k"], vk + "/" + op["val"].get("dt", "") + op["val"].get("lay", "")))
             if vk != "none":
                 n_writes += 1
                 if ci == 0 and len(rres) and len(cres):
@@ -339,6 +381,10 @@ def execute(plan, out, log):
                         out["probes"]["overlapping_write"] += 1
                     touched[np.ix_(sorted(set(rres)), sorted(set(cres)))] += 1
             out["probes"]["write_" + vk] += 1
+            if op["val"].get("dt"):
+                out["probes"]["write_dtype_" + op["val"]["dt"]] += 1
+            if op["val"].get("lay"):
+                out["probes"]["write_layout_" + op["val"]["lay"]] += 1
             if ci:
                 out["probes"]["write_into_sub_container"] += 1
             log.ev("write", k, ci, vk, len(rres), len(cres))
